@@ -30,6 +30,19 @@ CHECKS = {
          'independent matcher written from the API documentation; callbacks added during the dispatch of p may or '
          'may not see p, ones removed before their turn may or may not see p (statement silent)',
          'DESIGN.md §3 C07', 'E2'),
+ 'C03': ('exploration',
+         'stateless deviation-bounded exploration (reply faults x thread schedules) of the real connect sequence against a simulated device',
+         'A real Crazyflie object downloads the tables from a simulated device (SimCF) through a simulated link under a '
+         'controlled scheduler with virtual time. 36 small configurations (both TOC generations, no-versioning device, '
+         'sizes 0..3, every type code, name-length extremes, ISO-8859-1 names, lossy and reliable links, rw/ro cache) are '
+         'explored with every single deviation (quick) / every pair of deviations on six of them (thorough) among: '
+         'duplicate a reply, delay it past the retry timer (stale reply to an earlier request), drop it, pick another '
+         'runnable thread at any synchronisation point; tables of 255..1000 entries are explored with one reply fault at '
+         'the structurally interesting indices (first, 254..257, last). At connected, both tables must equal the '
+         'device tables field by field and the four lookup functions must agree.',
+         'SimCF is my reading of the TOC wire protocol; faults on link-control/platform requests (which have no retry) '
+         'exclude loss; a thread that is slow by itself for longer than a retry period is not modelled',
+         'DESIGN.md §3 C03', 'E3'),
 }
 
 ALL = ['C%02d' % i for i in range(1, 21)]
